@@ -12,7 +12,7 @@ same things.  Only checks that exist are listed; the driver refuses anything els
 #   replay       bounded stand-ins / counterexample search in the replay crate
 PROPS = {
     "C06": {
-        "units": ["index"],
+        "units": ["index", "object"],
         "kani": [],
         "replay": [],
         "title": "Objects are insertion-ordered multimaps whose key index never goes stale",
